@@ -5,7 +5,12 @@
 //! * `conn <wc> <ops>` / `ka <wc>/<interval ms>/<timeout ms> <ops>` — the REAL router over an in-memory stream
 //!   (see `c02.rs` for the schedule language) with N requests in flight and a fault: FIN (`x`), garbage
 //!   header / bad version / cut response stream (`b<hex>`), unsolicited stream id (`u<stream>`), silent stall
-//!   with keep-alive on under tokio's paused clock (`t<ms>`).
+//!   with keep-alive on under tokio's paused clock (`t<ms>`);
+//! * `race <wc>/<threads>/<submitters>/<per submitter>/<fin|garbage|unsolicited> <seed>` — the same router on a
+//!   MULTI-THREAD runtime: submitter tasks push requests concurrently with the server resetting the connection
+//!   (so that some `send_request` is between "obtained channel capacity" and "pushed the task" when the router
+//!   shuts down). Oracle only (the schedule is not deterministic): every submitted request completes within the
+//!   watchdog. Output `race`.
 use crate::c02::{ConnSim, runtime, settle};
 use crate::rng::Rng;
 use crate::util::{hex, unhex};
@@ -154,6 +159,14 @@ pub fn generate(rng: &mut Rng, tier: Tier, emit: &mut dyn FnMut(String)) {
             emit(format!("conn {} {}", wc, ops.join(";")));
         }
     }
+    // 4. multi-thread race: submissions concurrent with a server-side reset (oracle only)
+    for _ in 0..(if quick { 300 } else { 3000 }) {
+        let threads = *rng.pick(&[2usize, 4, 4, 8]);
+        let submitters = *rng.pick(&[2usize, 4, 8, 16]);
+        let per = *rng.pick(&[5usize, 20, 40]);
+        let fault = *rng.pick(&["fin", "fin", "garbage", "unsolicited"]);
+        emit(format!("race {}/{}/{}/{}/{} {}", rng.below(2), threads, submitters, per, fault, rng.next() % 1_000_000_007));
+    }
     // 3. keep-alive: silent stall, answered keep-alives, faults under virtual time
     for _ in 0..(if quick { 6000 } else { 100_000 }) {
         let interval = *rng.pick(&[1000u64, 500, 2000]);
@@ -284,6 +297,165 @@ fn run_conn(wc: bool, ka: Option<(u64, u64)>, ops: &[&str], ctx: &mut Ctx) -> St
     })
 }
 
+/// Watchdog of the race cases: a request that has not completed this long after the reset is suspicious; it gets a
+/// second, longer chance (slowness under load is not a hang — a stranded request never completes).
+const RACE_WATCHDOG: Duration = Duration::from_secs(20);
+const RACE_SECOND_CHANCE: Duration = Duration::from_secs(40);
+const RACE_ROUNDS: usize = 6;
+
+fn run_race(cfg: &str, seed: u64, ctx: &mut Ctx) -> String {
+    use scylla::verif_hooks::connection::RawConnection;
+    use std::sync::Arc;
+    use tokio::io::{AsyncReadExt, AsyncWriteExt};
+    let parts: Vec<&str> = cfg.split('/').collect();
+    if parts.len() != 5 {
+        return "bad-case".to_owned();
+    }
+    let wc = match parts[0] {
+        "0" => false,
+        "1" => true,
+        _ => return "bad-case".to_owned(),
+    };
+    let (Ok(threads), Ok(submitters), Ok(per)) =
+        (parts[1].parse::<usize>(), parts[2].parse::<usize>(), parts[3].parse::<usize>())
+    else {
+        return "bad-case".to_owned();
+    };
+    let fault = parts[4];
+    if !matches!(fault, "fin" | "garbage" | "unsolicited")
+        || threads == 0
+        || threads > 16
+        || submitters == 0
+        || submitters > 64
+        || per == 0
+        || per > 1000
+    {
+        return "bad-case".to_owned();
+    }
+    let mut rng = Rng::new(seed);
+    let rt = tokio::runtime::Builder::new_multi_thread().worker_threads(threads).enable_all().build().unwrap();
+    let mut failures: Vec<String> = Vec::new();
+    rt.block_on(async {
+        for round in 0..RACE_ROUNDS {
+            let (client, mut server) = tokio::io::duplex(1 << 20);
+            let (conn, _broken) = RawConnection::spawn(client, None, None, wc);
+            let conn = Arc::new(conn);
+            // the server answers what it reads and resets after `cut` frames
+            let cut = rng.below((submitters * per) as u64 + 1) as usize;
+            let fault_s = fault.to_owned();
+            let garbage = rng.bytes(9);
+            let server_task = tokio::spawn(async move {
+                let mut buf: Vec<u8> = Vec::new();
+                let mut seen = 0usize;
+                'outer: loop {
+                    while buf.len() >= 9 {
+                        let len = u32::from_be_bytes(buf[5..9].try_into().unwrap()) as usize;
+                        if buf.len() < 9 + len {
+                            break;
+                        }
+                        let frame: Vec<u8> = buf.drain(..9 + len).collect();
+                        if seen >= cut {
+                            break 'outer;
+                        }
+                        seen += 1;
+                        let stream = i16::from_be_bytes([frame[2], frame[3]]);
+                        let _ = server.write_all(&frame_bytes(0, stream, 0x08, &frame[9..])).await;
+                    }
+                    if seen >= cut {
+                        break;
+                    }
+                    match server.read_buf(&mut buf).await {
+                        Ok(n) if n > 0 => {}
+                        _ => break,
+                    }
+                }
+                match fault_s.as_str() {
+                    "garbage" => {
+                        let mut g = garbage;
+                        g[0] = 0x04; // a request-direction version byte: header error
+                        g[5] = 0;
+                        g[6] = 0;
+                        let _ = server.write_all(&g).await;
+                        let _ = server.flush().await;
+                        // keep the stream open: the break must come from the header error alone
+                        tokio::time::sleep(Duration::from_millis(5)).await;
+                    }
+                    "unsolicited" => {
+                        let _ = server.write_all(&frame_bytes(0, 32767, 0x08, &[])).await;
+                        let _ = server.flush().await;
+                        tokio::time::sleep(Duration::from_millis(5)).await;
+                    }
+                    _ => {}
+                }
+                drop(server);
+            });
+            // submitters: every request is its own task, so that it can be watched individually
+            let mut subs = Vec::new();
+            for sidx in 0..submitters {
+                let conn = conn.clone();
+                let pace = rng.below(4);
+                subs.push(tokio::spawn(async move {
+                    let mut handles = Vec::with_capacity(per);
+                    for i in 0..per {
+                        let conn = conn.clone();
+                        let tag = ((sidx * 100_000 + i) as u64).to_be_bytes().to_vec();
+                        handles.push(tokio::spawn(async move { conn.send_raw(tag).await.is_ok() }));
+                        for _ in 0..pace {
+                            tokio::task::yield_now().await;
+                        }
+                    }
+                    handles
+                }));
+            }
+            let mut handles = Vec::new();
+            for s in subs {
+                handles.extend(s.await.unwrap());
+            }
+            let _ = server_task.await;
+            // a few more submissions after the reset: they must fail (or complete) as well
+            for i in 0..4u64 {
+                let conn = conn.clone();
+                handles.push(tokio::spawn(async move { conn.send_raw((9_000_000 + i).to_be_bytes().to_vec()).await.is_ok() }));
+            }
+            let total = handles.len();
+            let start = std::time::Instant::now();
+            let mut pending = handles;
+            let mut second_chance = false;
+            loop {
+                pending.retain(|h| !h.is_finished());
+                if pending.is_empty() {
+                    break;
+                }
+                let waited = start.elapsed();
+                if !second_chance && waited >= RACE_WATCHDOG {
+                    second_chance = true;
+                }
+                if waited >= RACE_WATCHDOG + RACE_SECOND_CHANCE {
+                    failures.push(format!(
+                        "round {}: {} of {} requests submitted around the connection reset ({}) never completed ({} s watchdog + {} s second chance)",
+                        round,
+                        pending.len(),
+                        total,
+                        fault,
+                        RACE_WATCHDOG.as_secs(),
+                        RACE_SECOND_CHANCE.as_secs()
+                    ));
+                    for h in &pending {
+                        h.abort();
+                    }
+                    break;
+                }
+                tokio::time::sleep(Duration::from_millis(if waited.as_millis() < 200 { 1 } else { 50 })).await;
+            }
+        }
+    });
+    rt.shutdown_timeout(Duration::from_secs(1));
+    for f in &failures {
+        ctx.fail(f.clone());
+    }
+    if failures.is_empty() { "race".to_owned() } else { "race-hang".to_owned() }
+}
+
 pub fn run(case: &str, ctx: &mut Ctx) -> String {
     let w: Vec<&str> = case.split_whitespace().collect();
     fn ops<'a>(s: Option<&&'a str>) -> Vec<&'a str> {
@@ -297,6 +469,10 @@ pub fn run(case: &str, ctx: &mut Ctx) -> String {
         Some("conn") if (w.len() == 2 || w.len() == 3) && (w[1] == "0" || w[1] == "1") => {
             run_conn(w[1] == "1", None, &ops(w.get(2)), ctx)
         }
+        Some("race") if w.len() == 3 => match w[2].parse::<u64>() {
+            Ok(seed) => run_race(w[1], seed, ctx),
+            Err(_) => "bad-case".to_owned(),
+        },
         Some("ka") if w.len() == 2 || w.len() == 3 => {
             let cfg: Vec<&str> = w[1].split('/').collect();
             if cfg.len() != 3 || !(cfg[0] == "0" || cfg[0] == "1") {
